@@ -278,6 +278,22 @@ impl AnyStore {
     }
 }
 
+/// next vote of a sequence: mostly related to the previous one the way elections produce them —
+/// the same leader id with the committed flag flipped (either way), the very same vote again
+/// (heartbeats), a higher term, a lower term, another node in the same term
+pub fn next_vote(rng: &mut Rng, last: &mut Option<(u64, u64, bool)>) -> (Vote<NodeId>, &'static str) {
+    let (t, n, c, kind) = match (*last, rng.below(10)) {
+        (Some((t, n, c)), 0 | 1 | 2 | 3) => (t, n, !c, if c { "same_leader_uncommit" } else { "same_leader_commit" }),
+        (Some((t, n, c)), 4) => (t, n, c, "identical"),
+        (Some((t, _, _)), 5 | 6) => (t + 1 + rng.below(2), 1 + rng.below(3), rng.chance(1, 3), "higher_term"),
+        (Some((t, n, _)), 7) => (t, 1 + (n % 3), rng.chance(1, 2), "same_term_other_node"),
+        (Some((t, _, _)), 8) if t > 0 => (rng.below(t), 1 + rng.below(3), rng.chance(1, 2), "lower_term"),
+        _ => (rng.below(5), 1 + rng.below(3), rng.chance(1, 2), "random"),
+    };
+    *last = Some((t, n, c));
+    (mk_vote(t, n, c), kind)
+}
+
 pub fn mk_vote(t: u64, n: u64, c: bool) -> Vote<NodeId> {
     if c { Vote::new_committed(t, n) } else { Vote::new(t, n) }
 }
@@ -582,9 +598,10 @@ fn scenario_log(run: &mut Run, steps: u64, disciplined: bool) {
     let mut purged: Option<u64> = None;
     let mut term: u64 = 1;
     let mut present: BTreeMap<u64, LogId<NodeId>> = BTreeMap::new();
+    let mut last_vote: Option<(u64, u64, bool)> = None;
     let rt = rt();
     for _ in 0..steps {
-        let op = run.ctx.rng.below(10);
+        let op = run.ctx.rng.below(12);
         match op {
             0 | 1 | 2 | 3 => {
                 let n = 1 + run.ctx.rng.below(4);
@@ -635,13 +652,17 @@ fn scenario_log(run: &mut Run, steps: u64, disciplined: bool) {
                 run.ctx.case(&format!("trunc a {}", lid(&id)), &line);
                 run.ctx.count("log:delete_conflict");
             }
-            7 => {
-                let v = mk_vote(run.ctx.rng.below(5), 1 + run.ctx.rng.below(3), run.ctx.rng.chance(1, 2));
-                let st = run.st("a");
-                rt.block_on(async { with_store!(st, s => s.save_vote(&v).await) }).expect("save_vote");
-                let r = st.vote_print(&rt);
-                run.ctx.case(&format!("vote a {} {} {}", v.leader_id.term, v.leader_id.node_id, if v.committed { 1 } else { 0 }), &r);
-                run.ctx.count("log:save_vote");
+            7 | 10 | 11 => {
+                // a short run of related votes, each followed by read_vote
+                for _ in 0..1 + run.ctx.rng.below(3) {
+                    let (v, kind) = next_vote(&mut run.ctx.rng, &mut last_vote);
+                    let st = run.st("a");
+                    rt.block_on(async { with_store!(st, s => s.save_vote(&v).await) }).expect("save_vote");
+                    let r = st.vote_print(&rt);
+                    run.ctx.case(&format!("vote a {} {} {}", v.leader_id.term, v.leader_id.node_id, if v.committed { 1 } else { 0 }), &r);
+                    run.ctx.count("log:save_vote");
+                    run.ctx.count(&format!("vote:{}", kind));
+                }
             }
             8 => {
                 let r = run.st("a").vote_print(&rt);
